@@ -17,9 +17,10 @@ open Gen
 
 theorem skel_RegisterWaitingTunnel : Skel.RegisterWaitingTunnel = ["time.Now", "now.Add", "makeKey", "storage.Set"] := by decide
 
-/-- get → decode (three `Unmarshal` arms, one re-`Marshal`) → explicit expiry check → delete. -/
+/-- get → decode (three `Unmarshal` arms, one re-`Marshal`) → explicit expiry check; a lookup never
+writes (the expired record is left to its key TTL). -/
 theorem skel_LookupWaitingTunnel : Skel.LookupWaitingTunnel =
-    ["makeKey", "storage.Get", "json.Marshal", "json.Unmarshal", "json.Unmarshal", "json.Unmarshal", "After", "storage.Delete"] := by
+    ["makeKey", "storage.Get", "json.Marshal", "json.Unmarshal", "json.Unmarshal", "json.Unmarshal", "After"] := by
   decide
 
 theorem skel_RemoveWaitingTunnel : Skel.RemoveWaitingTunnel = ["makeKey", "storage.Delete"] := by decide
@@ -157,7 +158,7 @@ dialled; an id that does not resolve is not forwarded; a tunnel whose source nod
 is attached to the local bridge instead (`processCrossNodeForward`). -/
 theorem C09_forward_current_address (cfg : Cfg) (w : World) (g : Ghost) (n : Nat) (tid : String)
     (hI : Inv cfg.backend w g) (hn : wfNode cfg.backend n = true) :
-    check cfg g (.fwd n tid) (forwardTarget cfg w n tid).2 = true := (fwd_ok cfg w g n tid hI.1 hI.2 hn).1
+    check cfg g (.fwd n tid) (forwardTarget cfg w n tid).2 = true := (fwd_ok cfg w g n tid hI.1.1 hI.1.2 hn).1
 
 /-- **Polling clause** (also part of `C09_main`): from any reachable state, the first `k` polls of the
 target node's polling lookup return the registered record iff the id is in its waiting period, and
@@ -168,14 +169,26 @@ theorem C09_polling_lookup (cfg : Cfg) (w : World) (g : Ghost) (n : Nat) (tid : 
     (hI : Inv cfg.backend w g) (hn : wfNode cfg.backend n = true) :
     check cfg g (.pollStart n tid k) (pollLoop cfg n tid k w).2 = true ∧
     check cfg g (.pollEnd n tid) (pollEnd cfg w n tid).2 = true :=
-  ⟨(poll_ok cfg g n tid hn k w hI.1).1, (pollEnd_ok cfg w g n tid hI.1 hn).1⟩
+  ⟨(poll_ok cfg g n tid hn k w hI.1.1).1, (pollEnd_ok cfg w g n tid hI.1.1 hn).1⟩
 
 /-- **Restart clause**: a crash-restart of any node keeps the invariant — the records and addresses
 other nodes resolve are untouched; only that node's bridges are gone. -/
 theorem C09_restart_keeps_routing (cfg : Cfg) (w : World) (g : Ghost) (n : Nat) (hI : Inv cfg.backend w g)
     (hb : (cfg.backend != .hybridLocal) = true) :
-    Inv cfg.backend (restartNode cfg w n) { g with bridges := fun m t => if m = n then false else g.bridges m t } :=
-  restart_ok cfg w g n hI hb
+    Inv cfg.backend (restartNode cfg w n) (gstep cfg g (.restart n)) :=
+  ⟨restart_ok cfg w g n hI.1 hb, restart_inf cfg w g n hI.2⟩
+
+/-- **Overlapping lookups** (also part of `C09_main`): a lookup whose storage reply is delayed
+(`slowBegin` … `slowEnd`, with an arbitrary history in between: removals, lapses, re-registrations,
+other lookups of the same id on the same node) answers with what was registered when the store served
+it, checked against the clock at arrival; and — because `C09_main` judges every ordinary `look`
+against the state at *its own* start — a lookup that starts after a removal or lapse completed never
+resolves the id, and one that starts after a registration completed finds it, whatever older
+lookups are still in flight. -/
+theorem C09_overlapping_lookups (cfg : Cfg) (w : World) (g : Ghost) (n : Nat) (tid : String)
+    (hI : Inv cfg.backend w g) :
+    check cfg g (.slowEnd n tid) (slowEnd w n tid).2 = true ∧
+    Inv cfg.backend (slowEnd w n tid).1 (gstep cfg g (.slowEnd n tid)) := slowEnd_ok cfg w g n tid hI
 
 /-! ## Non-vacuity and excluded points -/
 
@@ -231,6 +244,21 @@ returns a record after the removal. -/
 example : holds ⟨.memory, [0, 0]⟩ [.reg 0 rT1, .pollStart 1 "T1" 2] [.ok, .pending] = false := by decide +kernel
 example : holds ⟨.memory, [0, 0]⟩ [.reg 0 rT1, .rem 0 "T1", .pollEnd 1 "T1"] [.ok, .ok, .found rT1] = false := by
   decide +kernel
+
+/-- Lookup #1 of node 2 is served by the store and its reply is held back; the tunnel is removed; lookup
+#2 of the same node starts afterwards and must not resolve the id; the late reply of lookup #1 still
+carries the record (it was served before the removal).  Symmetrically for a miss in flight across a
+registration. -/
+example : run ⟨.redis, [0, 0, 0]⟩
+    [.reg 0 rT1, .slowBegin 2 "T1", .rem 0 "T1", .look 2 "T1", .slowEnd 2 "T1",
+     .slowBegin 1 "T2", .reg 0 rT2, .look 1 "T2", .slowEnd 1 "T2", .slowEnd 1 "T2"] =
+    [.ok, .pending, .ok, .notFound, .found { rT1 with createdAt := wall0, expiresAt := wall0 + 30000 },
+     .pending, .ok, .found { rT2 with createdAt := wall0, expiresAt := wall0 + 30000 }, .notFound, .skip] := by
+  decide +kernel
+
+/-- The predicate rejects lookup #2 sharing the answer of the lookup that is still in flight. -/
+example : holds ⟨.redis, [0, 0, 0]⟩ [.reg 0 rT1, .slowBegin 2 "T1", .rem 0 "T1", .look 2 "T1"]
+    [.ok, .pending, .ok, .found { rT1 with expiresAt := 30000 }] = false := by decide +kernel
 
 /-- Excluded point 1 (why `wfNode`): a tiered store without shared cache keeps the record in the
 registering node's memory, another node does not find it. -/
